@@ -380,6 +380,16 @@ Definition lazy_bind_k (k : kind) := match k with BFS => lazy_bind | DFS => lazy
 
 Definition mfuel : nat := N.to_nat 100000.
 
+(* the harness's sq goal reads its first operand without the substitution: the number itself, or the
+   first number found going down the heads of lists and the first fields of compounds *)
+Fixpoint first_number (t : term) : option Z :=
+  match t with
+  | TVal (LNum z) => Some z
+  | TCons h _ => first_number h
+  | TComp _ (TMore h _) => first_number h
+  | _ => None
+  end.
+
 Definition panic_site_verify_all_bound : nat := 20.
 Definition panic_site_project : nat := 21.
 
@@ -509,11 +519,11 @@ Fixpoint start (n : nat) (g : cgoal) (st : state) {struct n} : stream :=
         end
     | CDom x d => sres_stream (post_domain x d st)
     | CPost c => sres_stream (post_constraint c st)
-    | CPanicG site => SErr false site
+    | CPanicG site => SErr (Nat.eqb site 0) site   (* site 0: goal construction ran out of fuel (diverges) *)
     | CProbe tag => SUnit (log_event st (probe_event tag st))
-    | CSq u v => match u with
-                 | TVal (LNum z) => sres_stream (state_unify st (tnum (z * z)) v)
-                 | _ => SEmpty
+    | CSq u v => match first_number u with
+                 | Some z => sres_stream (state_unify st (tnum (z * z)) v)
+                 | None => SEmpty
                  end
     | CForceAns x =>
         let xw := wk (st_smap st) x in
